@@ -835,7 +835,9 @@ def _emit_fn(unit, repo, rel, scope, name, opts, flags, contract, directives, va
             # code under the wildcard changes, the assumption has to be re-reviewed: the function becomes undecided.
             nw = pat.count("$$")
             carried = all(("$$%d" % k) in rep for k in range(1, nw + 1))   # every wildcard's text is carried into the replacement
-            if hits and nw and not carried:
+            # `nopin`: the dropped text is verified elsewhere on every run (assume-guarantee split between two units), so no
+            # assumption about it can go stale
+            if hits and nw and not carried and "nopin" not in dopts:
                 # only the wildcard texts that are NOT carried into the replacement are pinned (the literal tokens are
                 # fixed by the pattern; carried texts are emitted and verified as they are)
                 dropped = [k for k in range(1, nw + 1) if ("$$%d" % k) not in rep]
